@@ -10,9 +10,11 @@ import GoNeat.Proofs.WFLemmas
 import GoNeat.Proofs.WFParam
 import GoNeat.Proofs.WFStruct
 import GoNeat.Proofs.WFMate
+import GoNeat.Proofs.WFPop
 import GoNeat.Props.C04
 import GoNeat.Props.C05
 import GoNeat.Props.C06
+import GoNeat.Proofs.ScalarInt
 
 namespace GoNeat.C01
 open GoNeat Scalar
@@ -580,5 +582,171 @@ theorem C01_singlepoint_partial (g og : Genome W) (id : Int) (rs rs' : List Nat)
             acc rs2 hz hw2.wf.genesSorted hw1.wf.genesSorted (fun _ h => h) (fun _ h => h) hacc (by simp [GenesSorted])
             (by simp) (by simp) hwalk
           exact child_wft g og nt acc id a b (c (Or.inr ⟨y, ys, x, xs, hy, hx, hxy.symm⟩)) hw1 hw2 hl hids
+
+/-! ## spawning a population -/
+
+omit [Scalar W] in
+theorem nodes_le_last (nodes : List Node) (hs : NodesSorted nodes) (last : Node) (hl : nodes.getLast? = some last) :
+    ∀ n ∈ nodes, n.id ≤ last.id := by
+  obtain ⟨pre, rfl⟩ := List.getLast?_eq_some_iff.mp hl
+  unfold NodesSorted at hs
+  rw [List.pairwise_append] at hs
+  intro n hn
+  rcases List.mem_append.mp hn with h | h
+  · have := hs.2.2 n h last (by simp); omega
+  · simp at h; subst h; omega
+
+/-- **every member of a spawned population is well-formed**, has the start genome's skeleton (so retains all its
+    input/bias/output nodes, is of its lineage and shares its first gene), and the population's registry starts in a
+    state that satisfies the registry invariant for every member: no records, counters at/above every number in use -/
+theorem spawn_wf (o : EpochOpts W) (g : Genome W) (rs rs' : List Nat) (p : Pop W) (hw : WFT g) (hm : g.modules = [])
+    (h : spawn o g rs = .ok (p, rs')) :
+    ∀ x ∈ allOrgs p, WFT x.genome ∧ Retains g x.genome ∧ SameSkel g x.genome ∧ RegInv p.reg x.genome := by
+  unfold spawn at h
+  split at h
+  · cases h
+  · split at h
+    · cases h
+    · rename_i orgs rs1 hloop
+      split at h
+      · cases h
+      · rename_i lastNode hln
+        split at h
+        · cases h
+        · rename_i nextInn hni
+          simp only at h
+          split at h
+          · cases h
+          · rename_i p' hsp
+            simp only [Except.ok.injEq, Prod.mk.injEq] at h
+            obtain ⟨rfl, _⟩ := h
+            obtain ⟨horgs, hreg⟩ := speciate_orgs o _ _ _ hsp
+            have hmem := spawnLoop_members g hw hm _ _ _ _ _ _ hloop
+            -- the registry invariant for the start genome
+            have hig : RegInv p'.reg g := by
+              rw [hreg]
+              refine ⟨by intro i hi; simp at hi, ⟨?_, ?_⟩, ⟨by intro i hi; simp at hi, by intro i hi; simp at hi⟩⟩
+              · intro x hx
+                unfold Genome.nextGeneInnov at hni
+                cases hl : g.genes.getLast? with
+                | none => rw [hl] at hni; cases hni
+                | some last =>
+                  rw [hl, hm] at hni
+                  simp only [List.getLast?_nil, Except.ok.injEq] at hni
+                  have := sorted_le_last g.genes hw.wf.genesSorted last hl x hx
+                  show x.inn ≤ nextInn - 1
+                  omega
+              · intro n hn
+                unfold Genome.lastNodeId at hln
+                cases hl : g.nodes.getLast? with
+                | none => rw [hl] at hln; cases hln
+                | some last =>
+                  rw [hl, hm] at hln
+                  simp only [List.foldl_nil, Except.ok.injEq] at hln
+                  have := nodes_le_last g.nodes hw.wf.nodesSorted last hl n hn
+                  show n.id ≤ lastNode + 1
+                  omega
+            intro x hx
+            rcases horgs x hx with h' | h'
+            · simp [allOrgs] at h'
+            · obtain ⟨w, s⟩ := hmem x h'
+              exact ⟨w, s.retains, s, s.regInv _ hig⟩
+
+/-! ## known finding K1 (machine-checked witness) and non-vacuity of the hypotheses -/
+
+section Witnesses
+open GoNeat.ExactInt
+
+/-- parent with the single gene 5 (a recurrent-free link hidden→output) -/
+def k1a : Genome Int :=
+  { id := 1, traits := [⟨1, []⟩],
+    nodes := [⟨1, Kind.input, 4, some 1⟩, ⟨2, Kind.output, 4, some 1⟩, ⟨3, Kind.hidden, 4, some 1⟩],
+    genes := [⟨5, 3, 2, false, 0, 0, true, some 1⟩] }
+/-- parent with the genes 1, 2 -/
+def k1b : Genome Int :=
+  { id := 2, traits := [⟨1, []⟩],
+    nodes := [⟨1, Kind.input, 4, some 1⟩, ⟨2, Kind.output, 4, some 1⟩, ⟨3, Kind.hidden, 4, some 1⟩],
+    genes := [⟨1, 1, 2, false, 0, 0, true, some 1⟩, ⟨2, 1, 3, false, 0, 0, true, some 1⟩] }
+
+/-- the K1 parents are well-formed and of one lineage; only `SharedHead` fails -/
+example : WFT k1a ∧ WFT k1b ∧ SameLineage k1a k1b ∧ ¬ SharedHead k1a k1b := by decide
+
+/-- **K1: single-point crossover of well-formed parents of one lineage without a common first gene returns a
+    genome with no genes** ([5] × [1,2]; the walk breaks on its first iteration with `chosenGene == nil`).  So the
+    full-strength single-point clause of C01 is false of the code; `C01_singlepoint_partial` needs `SharedHead`. -/
+theorem C01_singlepoint_counterexample :
+    (mateSinglePoint k1a k1b 7 [0]).toOption.map (fun r => r.1.genes.length) = some 0 := by
+  simp [mateSinglePoint, matePrologue, mateTraits, traitAvg, ioNodes, childTraitRef, nodeInsert, insertAt, insertIndex,
+    Rand.intn, Rand.int31OfRaw, singlePointWalk, k1a, k1b, Kind.input, Kind.output, Kind.hidden, Kind.bias,
+    Except.toOption, List.zipWith]
+
+/-- the gene-less child is not well-formed and `Genesis` rejects it -/
+example : genesisErr ({ id := 7, traits := [⟨1, []⟩], nodes := k1a.nodes, genes := [] } : Genome Int) = some "genesis:noGenes" := by
+  decide
+
+/-- an evolved genome: hidden node 4 splits gene 1 (1→3), genes 4 and 5 are the two halves, gene 6 is an added link -/
+def ev1 : Genome Int :=
+  { id := 1, traits := [⟨1, [0]⟩, ⟨2, [0]⟩],
+    nodes := [⟨1, Kind.input, 4, some 1⟩, ⟨2, Kind.bias, 4, none⟩, ⟨3, Kind.output, 4, some 2⟩, ⟨4, Kind.hidden, 4, some 1⟩],
+    genes := [⟨1, 1, 3, false, 0, 0, false, some 1⟩, ⟨2, 2, 3, false, 0, 0, true, none⟩,
+              ⟨4, 1, 4, false, 1, 0, true, some 1⟩, ⟨5, 4, 3, false, 0, 0, true, some 1⟩, ⟨6, 2, 4, false, 0, 0, true, some 2⟩] }
+/-- its sibling without the added link but with a recurrent self-loop on the hidden node -/
+def ev2 : Genome Int :=
+  { ev1 with id := 2, genes := [⟨1, 1, 3, false, 0, 0, false, some 1⟩, ⟨2, 2, 3, false, 0, 0, true, none⟩,
+              ⟨4, 1, 4, false, 1, 0, true, some 1⟩, ⟨5, 4, 3, false, 0, 0, true, some 1⟩, ⟨7, 4, 4, true, 0, 0, true, none⟩] }
+/-- the registry of their generation: the node split of gene 1 and the two added links -/
+def evReg : Reg Int :=
+  { records := [⟨1, 1, 3, 4, 5, 0, 0, 4, 1, false⟩, ⟨2, 2, 4, 6, 0, 0, 1, 0, 0, false⟩, ⟨2, 4, 4, 7, 0, 0, 0, 0, 0, true⟩],
+    nextInn := 7, nextNode := 5 }
+
+/-- hypotheses of the mutator theorems are satisfiable with a registry holding records of both kinds that match genes
+    of the genome -/
+example : WFT ev1 ∧ RegInv evReg ev1 ∧ WFT ev2 ∧ RegInv evReg ev2 := by decide
+/-- hypotheses of the crossover theorems -/
+example : WFT ev1 ∧ WFT ev2 ∧ SameLineage ev1 ev2 ∧ SharedHead ev1 ev2 := by decide
+/-- hypotheses of the insertion lemmas: a mid-list insertion -/
+example : GenesSorted ev1.genes ∧ (∀ y ∈ ev1.genes, y.inn ≠ 3) ∧
+    (geneInsert ev1.genes ⟨3, 2, 4, false, 0, 0, true, none⟩).map (·.inn) = [1, 2, 3, 4, 5, 6] := by decide
+/-- the equal-key branch: a second gene 4 lands directly before the old gene 4; a second gene 6 (= last) behind it -/
+example : (geneInsert ev1.genes ⟨4, 2, 4, false, 9, 0, true, none⟩).map (fun x => (x.inn, x.w)) =
+      [(1, 0), (2, 0), (4, 9), (4, 1), (5, 0), (6, 0)] ∧
+    (geneInsert ev1.genes ⟨6, 2, 4, false, 9, 0, true, none⟩).map (fun x => (x.inn, x.w)) =
+      [(1, 0), (2, 0), (4, 1), (5, 0), (6, 0), (6, 9)] := by decide
+/-- duplication and spawning: the hypotheses (well-formed, non-modular) -/
+example : WFT ev1 ∧ ev1.modules = [] := by decide
+
+/-! concrete successful runs (the `… = ok` hypotheses are satisfiable): a scalar whose unit draw is the raw value
+    itself lets a stream steer every branch -/
+@[instance_reducible] def drawScalar : Scalar Int :=
+  { intScalar with ofUnit63 := fun x => (x : Int), ofDec := fun m _ => (m : Int) }
+section Runs
+attribute [local instance] drawScalar
+def mo : MutOpts Int := { recurOnlyProb := 0, newLinkTries := 3, activators := [4], activatorProbs := [1], traitMutationPower := 0, traitParamMutProb := 0, weightMutPower := 0, mutateRandomTraitProb := 1, mutateLinkTraitProb := 1, mutateNodeTraitProb := 1, mutateLinkWeightsProb := 1, mutateToggleEnableProb := 1, mutateGeneReenableProb := 1 }
+/-- a genome whose input node 1 is not connected -/
+def cs : Genome Int :=
+  { id := 3, traits := [⟨1, [0]⟩],
+    nodes := [⟨1, Kind.input, 4, some 1⟩, ⟨2, Kind.bias, 4, none⟩, ⟨3, Kind.output, 4, some 1⟩],
+    genes := [⟨2, 2, 3, false, 0, 0, true, none⟩] }
+example : WFT cs ∧ RegInv evReg cs := by decide
+/-- add-link on `ev2` finds the open link 2→4, for which the registry holds number 6: the gene is inserted
+    *mid-list* (between 5 and 7), the counter does not move -/
+example : (mutateAddLink ev2 evReg mo [5, 1<<<32, 1<<<32, 1<<<32, 2<<<32, 3<<<32]).toOption.map
+    (fun r => (r.1.2.2, r.1.1.genes.map (·.inn), r.1.2.1.nextInn)) = some (true, [1, 2, 4, 5, 6, 7], 7) := by decide
+/-- add-node on `ev2` splits gene 4 with fresh numbers 8, 9 and fresh node id 6 -/
+example : (mutateAddNode ev2 evReg mo [2, 2, 2]).toOption.map
+    (fun r => (r.1.2.2, r.1.1.genes.map (·.inn), r.1.1.nodes.map (·.id), r.1.2.1.nextInn)) =
+    some (true, [1, 2, 4, 5, 7, 8, 9], [1, 2, 3, 4, 6], 9) := by decide
+/-- connect-sensors wires the unconnected input with a fresh number -/
+example : (mutateConnectSensors cs evReg [0, 0, 1, 3]).toOption.map
+    (fun r => (r.1.2.2, r.1.1.genes.map (fun x => (x.inn, x.src, x.dst)), r.1.2.1.nextInn)) =
+    some (true, [(2, 2, 3), (8, 1, 3)], 8) := by decide
+/-- all six parametric stages run (the disabled gene 1 is re-enabled, trait pointers move) -/
+example : (mutateAllNonstructural ev1 mo (List.replicate 40 0)).toOption.map
+    (fun r => (r.1.genes.map (fun x => (x.inn, x.en, x.trait)), r.1.nodes.map (·.trait))) =
+    some ([(1, true, some 1), (2, true, none), (4, true, some 1), (5, true, some 1), (6, true, some 2)],
+          [some 1, none, some 2, some 1]) := by decide
+end Runs
+
+end Witnesses
 
 end GoNeat.C01
